@@ -1,4 +1,5 @@
 import Crv.Proofs.LocksMain
+import Crv.Proofs.Skeleton
 import Crv.Generated.Locks
 /-!
 C13 — Concurrency safety. The generic theorems of `Crv.Proofs.LocksMain` instantiated on the lock
@@ -145,5 +146,20 @@ example : ∃ c, Reachable sys c ∧ Unfinished sys c ∧ strictEnabled sys c 1 
 /-- `race_free_partial` is not vacuous: the same two threads do reach a configuration where both are about
 to touch the same entry's store content — but only as reader after reader, never with the writer. -/
 example : sys.hasWrite 3 = true ∧ sys.hasWrite 1 = true ∧ sys.hasWrite 0 = true := by decide +kernel
+
+/-- The hand-written `Repo` model this property rests on was transcribed from exactly these sources: the fingerprints are
+recomputed from /repo on every run (tools/extract/skeleton.go), so any change to one of the functions breaks this obligation. -/
+theorem repo_sources_as_transcribed : Crv.Generated.skeletonRepo = Crv.Skeleton.expectedRepo :=
+  Crv.Skeleton.repo_sources_as_transcribed
+
+/-- The hand-written `Store` model this property rests on was transcribed from exactly these sources: the fingerprints are
+recomputed from /repo on every run (tools/extract/skeleton.go), so any change to one of the functions breaks this obligation. -/
+theorem store_sources_as_transcribed : Crv.Generated.skeletonStore = Crv.Skeleton.expectedStore :=
+  Crv.Skeleton.store_sources_as_transcribed
+
+/-- The hand-written `Ocsp` model this property rests on was transcribed from exactly these sources: the fingerprints are
+recomputed from /repo on every run (tools/extract/skeleton.go), so any change to one of the functions breaks this obligation. -/
+theorem ocsp_sources_as_transcribed : Crv.Generated.skeletonOcsp = Crv.Skeleton.expectedOcsp :=
+  Crv.Skeleton.ocsp_sources_as_transcribed
 
 end Crv.Props.C13
